@@ -37,7 +37,7 @@ func init() {
 	register("C02", &propDef{
 		Title:           "Pack followed by Unpack reproduces the source tree",
 		ConfigSensitive: true,
-		Rules: []func(*Checker){ruleC02Kinds, ruleMaterialise("C02.materialise"), ruleRestore("C02.restore"), ruleC02Fields, ruleMeta("C02.meta"), ruleC02Omit, ruleC04Accept2("C02.links"), aliasRule(ruleC05Link, "C05.link", "C02.linkkept", 2), ruleC02LinkTarget, ruleLinkPrecise("C02.linkprecise"), ruleFilesClosed("C02.closed"), ruleLinkRestore("C02.linkrestore"), ruleEntryNameAsSpelled("C02.namekept"), rulePackerWriters("C02.percall"), ruleBodyReadToEnd("C02.fullread"),
+		Rules: []func(*Checker){ruleC02Kinds, ruleMaterialise("C02.materialise"), ruleRestore("C02.restore"), ruleC02Fields, ruleMeta("C02.meta"), ruleC02Omit, ruleC04Accept2("C02.links"), aliasRule(ruleC05Link, "C05.link", "C02.linkkept", 2), ruleC02LinkTarget, ruleLinkPrecise("C02.linkprecise"), ruleFilesClosed("C02.closed"), ruleLinkRestore("C02.linkrestore"), ruleEntryNameAsSpelled("C02.namekept"), rulePackerWriters("C02.percall"), ruleBodyReadToEnd("C02.fullread"), ruleRefusalsOfPack("C02.packrefusals"),
 			aliasRuleFiltered(ruleC03Prune, "C03.prune", "C02.skipdir", 1, func(o Oblig) bool { return strings.Contains(o.Key, "SkipDir only for directories") }),
 			aliasRuleFiltered(ruleC12Whole, "C12.whole", "C02.noskip", 1, func(o Oblig) bool { return strings.Contains(o.Key, "back edge") })},
 		NotDecided: []string{
